@@ -813,14 +813,22 @@ def key_classifier_agreement_rule(cx, rep, rid):
         f = F.fns.get(g)
         if f is None or "/src/frontend" not in (f.file or "") or f.kind == "Closure":
             continue
-        cs = set()
-        for n in hwalk(t["body"]):
-            if n["k"] in ("Call", "MethodCall"):
-                cal = n.get("callee") if n["k"] == "Call" else (n.get("resolved") or n.get("callee"))
-                tg = F._callee_gid(f.crate, cal or "")
-                tf = F.fns.get(tg)
-                if tf is not None and (tf.output or "") == "std::option::Option<std::string::String>" and len(tf.inputs or []) == 1 and "Runtype" in tf.inputs[0]:
-                    cs.add(tg)
+        def classifiers(tree, depth):
+            out = set()
+            for n in hwalk(tree["body"]):
+                if n["k"] in ("Call", "MethodCall"):
+                    cal = n.get("callee") if n["k"] == "Call" else (n.get("resolved") or n.get("callee"))
+                    tg = F._callee_gid(f.crate, cal or "")
+                    tf = F.fns.get(tg)
+                    if tf is None:
+                        continue
+                    if (tf.output or "") == "std::option::Option<std::string::String>" and len(tf.inputs or []) == 1 and "Runtype" in tf.inputs[0]:
+                        out.add(tg)
+                    elif depth > 0 and tg in F.hir and "/src/frontend" in (tf.file or "") and tg != g and "String" in (tf.output or "") and "Runtype" in (tf.output or ""):
+                        # a shared helper that does the split (`partition_keys(members) -> (Vec<String>, Vec<Runtype>)`)
+                        out |= classifiers(F.hir[tg], depth - 1)
+            return out
+        cs = classifiers(t, 1)
         builds = any((n.get("def") or "").endswith("IndexedProperty") for n in hwalk(t["body"]) if n["k"] == "Struct") or \
             any(n["k"] == "Call" and (n.get("callee") or "").endswith("Runtype::record") for n in hwalk(t["body"]))
         if cs and builds:
